@@ -174,11 +174,14 @@ def run(pid: str, tier: str, seed: int, *, replay: dict | None = None) -> int:
                "loop step) with task cancellation injected there; a case is non-trivial if at least one message was "
                "consumed; distinct = distinct (family, seed, injection point) with distinct event sequences")
     ck.trusted.append("in-memory broker: all real code; projection of DummyQueue.simple/delayed/dead/processing")
-    if replay is not None and replay.get("check") in ("suite", "replay"):
+    if replay is not None and replay.get("check") in ("suite", "replay", "replay_rabbit"):
         # these parts are not driven by a scenario: run the part again
         if replay["check"] == "suite":
             from checks import suite_traces
             suite_traces.run_part(ck, "thorough")
+        elif replay["check"] == "replay_rabbit":
+            from checks import replay_rabbit
+            replay_rabbit.run_part(ck, "quick", seed)
         else:
             from checks import replay_inmem
             replay_inmem.run_part(ck, "quick", seed)
